@@ -491,6 +491,7 @@ PROPS = {
                   lambda prog, tier: idx.run(prog),
                   lambda prog, tier: idxclass.run(prog),
                   lambda prog, tier: lenclass.run(prog),
+                  lambda prog, tier: lenclass.run_capacity(prog),
                   lambda prog, tier: appendinit.run(prog),
                   lambda prog, tier: counter.run(prog),
                   lambda prog, tier: useb4check.run(prog),
@@ -506,7 +507,9 @@ PROPS = {
                        "every copy / format into a fixed or heap buffer is bounded by it; (R-IDX) every externally supplied index is "
                        "range-checked against the dimension of each array it subscripts on every path; (R-IDXCLASS) no subscript mixes "
                        "row / structural / internal-column spaces; (R-LENCLASS) allocations and block operations on problem arrays use the "
-                       "array's own dimension; (R-APPENDINIT) slots appended by the add-row / add-column paths are initialised before the "
+                       "array's own dimension; (R-CAPACITY) an array that some site sizes by a capacity field (rowsize / colsize / structsize) is "
+                       "never allocated with only the current count unless the capacity is set to that count alongside (the appending edit "
+                       "functions write slot [count] whenever count < capacity); (R-APPENDINIT) slots appended by the add-row / add-column paths are initialised before the "
                        "dimension is published; (R-CNT) basis counters are bounded; (R-NDET) the reproducibility sentence: constant seeds, "
                        "no clock / pid / libc randomness outside the timing wrappers, time reaches a branch only at the documented time "
                        "limit, no relational pointer comparison across objects and no pointer-to-integer value outside the slab allocator.",
